@@ -219,6 +219,10 @@ func newL3(cfg inproc.Config, mod func(c *logic.Config)) *l3 {
 			default:
 			}
 			r, err := rawGet(addr, "", target)
+			if err == nil && r.Status/100 == 3 && r.Header.Get("Location") != "" {
+				// HLS sub-session mode: the playlist request is redirected to a URL carrying a session_id
+				r, err = rawGet(addr, "", r.Header.Get("Location"))
+			}
 			if err == nil {
 				if bytes.Contains(r.Body, []byte(nonce)) {
 					up = true
